@@ -16,15 +16,15 @@
 #include "spec/sx.h"
 
 #if !VERIF_IS_NATIVE
-int isdigit(int c)  { return SPEC_SX_ISDIGIT(c); }
-int isxdigit(int c) { return SPEC_SX_ISXDIGIT(c); }
-int isspace(int c)  { return SPEC_SX_ISSPACE(c); }
-int tolower(int c)  { return SPEC_SX_TOLOWER(c); }
-int toupper(int c)  { return SPEC_SX_TOUPPER(c); }
-int isalpha(int c)  { return SPEC_SX_ISALPHA(c); }
-int isalnum(int c)  { return SPEC_SX_ISALPHA(c) || SPEC_SX_ISDIGIT(c); }
-int isupper(int c)  { return SPEC_SX_ISUPPER(c); }
-int islower(int c)  { return SPEC_SX_ISLOWER(c); }
+int isdigit(int c)  { return SPEC_SX_REF_ISDIGIT(c); }
+int isxdigit(int c) { return SPEC_SX_REF_ISXDIGIT(c); }
+int isspace(int c)  { return SPEC_SX_REF_ISSPACE(c); }
+int tolower(int c)  { return SPEC_SX_REF_TOLOWER(c); }
+int toupper(int c)  { return SPEC_SX_REF_TOUPPER(c); }
+int isalpha(int c)  { return SPEC_SX_REF_ISALPHA(c); }
+int isalnum(int c)  { return SPEC_SX_REF_ISALPHA(c) || SPEC_SX_REF_ISDIGIT(c); }
+int isupper(int c)  { return SPEC_SX_REF_ISUPPER(c); }
+int islower(int c)  { return SPEC_SX_REF_ISLOWER(c); }
 #endif
 
 #endif
